@@ -38,6 +38,7 @@ type Checker struct {
 
 	floors map[string]int  // rule -> minimum number of obligations
 	mute   map[string]bool // rules whose obligations are not recorded (shared rule code run for another property)
+	nested bool            // this checker runs as an imported layer: importLayers is a no-op
 	seen   map[string]bool
 }
 
